@@ -33,6 +33,15 @@ def run(chk, tier):
         chk.case(("par", hx(bs[0]), hx(ks[0])))
     cfgs = ["hazmat", "hazmat-cpuoff", "hazmat-soft", "hazmat-softcompact"]
     outs, model = chk.run_family(cfgs, ops, cross=True)
+    # fixslice32's hazmat functions (the repository's file through #[path]): same single-block lines, `aesfs32hz`; compared with
+    # their Lean model and with the native answers
+    fops = ["aesfs32hz" + op[len("hazmat"):] for op in ops if "_par" not in op]
+    nat = {("aesfs32hz" + op[len("hazmat"):]): o for op, o in zip(ops, outs.get("hazmat", []))}
+    fouts, _ = chk.run_family(["hazmat", "hazmat-softcompact"], fops, family="aesfs32hz")
+    for cn, res in fouts.items():
+        for op, a in zip(fops, res):
+            if a != nat.get(op):
+                chk.violation(op[:150] + f" [fs32≠native {cn}]", {"kind": "config-divergence", "configs": ["fixslice32", cn], "op": op, "fs32": a, "native": nat.get(op)})
     # the ARMv8 hazmat functions (/repo/aes/src/armv8/hazmat.rs over software intrinsics): same lines, `hazmatarm`; compared
     # with their Lean model and, on the real build, with the native (AES-NI) answers line by line
     aops = ["hazmatarm" + op[len("hazmat"):] for op in ops]
